@@ -37,7 +37,7 @@ RULE = (
     "non-trivial = the compiled case contains >=1 jump/fork/merge/catch/scope/loop-exit element and the scan ran on every "
     "flow of the case; distinct = sha1(program text) / path"
 )
-MIN_HELD = {"quick": 3000, "thorough": 40000}
+MIN_HELD = {"quick": 3000, "thorough": 30000}
 MAX_INCONCLUSIVE = 0.10
 EXHAUSTIVE = {"quick": False, "thorough": False}
 ASSUMPTIONS = [
@@ -59,7 +59,8 @@ ASSUMPTIONS = [
     "a run-time `Unknown variable _ref_...` / return_value evaluation error of the interpreter is not a jump target and "
     "is only counted (observed.dynamic_other_warnings)",
     "shipped directories that need absent third-party modules / network / an unresolvable import are skipped and the "
-    "reason is counted (observed.shipped_skip_*); finalize() requires >=85% of the shipped inputs to load",
+    "reason is counted (observed.shipped_skip_*); finalize() requires >=85% of the shipped inputs to be loaded, "
+    "initialised and scanned",
     "dynamic part: the known C07 defect (`when` over a group with >1 and-groups) is generated on purpose (its expansion "
     "is where the duplicate labels come from) and a KeyError on a head uid in such a program is classified under its own "
     "key when-case-with-or-group-dynamic",
@@ -69,7 +70,7 @@ CASE_WALL_S = 120
 HARD_INCONCLUSIVE = ("hook-missing", "monitor-not-reached")
 
 SHIPPED_ROOTS = ("nemoguardrails", "examples", "tests", "docs")
-GEN_COUNTS = {"quick": (4000, 2000), "thorough": (40000, 20000)}  # (v2 programs, v1 programs)
+GEN_COUNTS = {"quick": (4000, 2000), "thorough": (30000, 15000)}  # (v2 programs, v1 programs)
 
 KNOWN_WHEN_ELSE = "when-else-leaves-scope-open"
 KNOWN_WHEN_OR_DYNAMIC = "when-case-with-or-group-dynamic"
@@ -752,9 +753,20 @@ def setup_worker():
                 msg = str(record.msg)
             et = record.exc_info[0].__name__ if record.exc_info and record.exc_info[0] else None
             ev = str(record.exc_info[1])[:200] if record.exc_info and record.exc_info[1] is not None else None
-            self.records.append((record.name, msg[:300], et, ev))
+            self.records.append((record.name, msg[:300], et, ev, _where(record.exc_info[2] if record.exc_info else None)))
 
     _W["capture"] = Capture()
+
+
+def _where(tb):
+    """function and source text of the innermost frame of a traceback (structural fact for the classifier)."""
+    import traceback
+
+    try:
+        fr = traceback.extract_tb(tb)[-1]
+        return "%s: %s" % (fr.name, (fr.line or "").strip())
+    except Exception:
+        return ""
 
 
 class _Logs:
@@ -799,6 +811,7 @@ def _init_v2(flows, rails_config=None):
     st = L["fl"].State(flow_states=[], flow_configs=fc, rails_config=rails_config)
     _W["contract_results"] = {}
     before = _W["contract_evals"]
+    _W["raised_before"] = _W["contract_raised"]
     used = True
     if "main" in fc:
         sm.initialize_state(st)
@@ -834,6 +847,9 @@ def _judge_v2_state(st, evals, obs):
     obs["v2_flows_scanned"] = obs.get("v2_flows_scanned", 0) + flows
     obs["v2_flows_with_duplicate_label_names"] = obs.get("v2_flows_with_duplicate_label_names", 0) + dup_flows
     obs["contract_evaluations"] = obs.get("contract_evaluations", 0) + evals
+    raised = _W["contract_raised"] - _W.get("raised_before", 0)
+    if raised:
+        obs["contract_violations_raised"] = obs.get("contract_violations_raised", 0) + raised
     if unseen:
         obs["v2_flows_not_judged_by_contract"] = obs.get("v2_flows_not_judged_by_contract", 0) + unseen
     return violations, flows, jumpish, unseen
@@ -952,23 +968,25 @@ def _run_shipped(case):
             shutil.rmtree(tmp, ignore_errors=True)
 
 
-CLOSEDNESS_EXC = ("KeyError", "IndexError")
+JUMP_TABLE_LOOKUPS = ("element_labels[", "head_fork_uids[", "flow_config.elements[", "catch_pattern_failure_label")
 
 
-def _dynamic_verdicts(records, referenced_labels, facts):
-    """Map captured log records / escaping exceptions to closedness mechanisms."""
+def _dynamic_verdicts(records, referenced, facts):
+    """Map captured log records / escaping exceptions to closedness mechanisms. `referenced` = every label and fork
+    uid some compiled element refers to. A KeyError is a jump failure iff its key is one of those or it is raised by a
+    jump-table lookup; a KeyError on a run-time uid (head, action) is outside C12 except for the C07 signature."""
     out = []
-    for name, msg, et, ev in records:
+    for name, msg, et, ev, where in records:
         if "Invalid label" in msg:
             out.append(("dangling-label-dynamic:goto", msg))
-        elif et in CLOSEDNESS_EXC:
+        elif et == "KeyError":
             key = (ev or "").strip("'\"")
-            if et == "KeyError" and key in referenced_labels:
-                out.append(("dangling-label-dynamic:KeyError", msg))
-            elif et == "KeyError" and facts.get("when_multi"):
-                out.append((KNOWN_WHEN_OR_DYNAMIC, msg))
-            else:
-                out.append(("jump-exception-dynamic:" + et, msg))
+            if key in referenced or any(t in where for t in JUMP_TABLE_LOOKUPS):
+                out.append(("dangling-label-dynamic:KeyError", msg + " @ " + where))
+            elif facts.get("when_multi") and "heads[" in where:
+                out.append((KNOWN_WHEN_OR_DYNAMIC, msg + " @ " + where))
+        elif et == "IndexError":
+            out.append(("jump-exception-dynamic:IndexError", msg + " @ " + where))
         elif et == "ColangRuntimeError" and "Scope with name" in (ev or msg):
             if "already opened" in (ev or msg) and facts.get("when_else"):
                 out.append((KNOWN_WHEN_ELSE, msg))
@@ -1018,6 +1036,9 @@ def _run_gen2(case):
                 referenced.add(e.label)
             elif isinstance(e, A.ForkHead):
                 referenced.update(e.labels)
+                referenced.add(e.fork_uid)
+            elif isinstance(e, A.MergeHeads):
+                referenced.add(e.fork_uid)
     L["random"].reset(seed=case["gseed"])
     L["clock"].reset()
     history = []
@@ -1046,22 +1067,22 @@ def _run_gen2(case):
         except steps.StepBudgetExceeded:
             obs["dynamic_nonterminating"] = 1
         except Exception as e:
-            escaped = (type(e).__name__, str(e)[:200])
+            escaped = (type(e).__name__, str(e)[:200], _where(e.__traceback__))
         records = list(cap.records)
     obs["dynamic_runs"] = 1
     obs["dynamic_warnings_seen"] = len(records)
     dyn = _dynamic_verdicts(records, referenced, g.facts)
     if escaped:
-        if escaped[0] in CLOSEDNESS_EXC:
-            dyn += _dynamic_verdicts([("escaped", "escaped %s: %s" % escaped, escaped[0], escaped[1])], referenced, g.facts)
-        else:
-            obs["dynamic_other_exception_" + escaped[0]] = 1
+        esc = _dynamic_verdicts([("escaped", "escaped %s: %s" % escaped[:2], escaped[0], escaped[1], escaped[2])], referenced, g.facts)
+        dyn += esc
+        if not esc:
+            obs["dynamic_other_escaped_exceptions"] = ["%s @ %s" % (escaped[0], escaped[2])]
     for m, d in dyn:
         violations.append((m, "main", d))
     other = [r for r in records if not _dynamic_verdicts([r], referenced, g.facts)]
     if other:
         obs["dynamic_other_warnings"] = len(other)
-        obs["dynamic_other_warning_kinds"] = sorted(set((r[2] or r[1][:40]) for r in other))[:5]
+        obs["dynamic_other_warning_kinds"] = sorted(set("%s @ %s" % (r[2] or r[1][:40], r[4][:80]) for r in other))[:5]
     base["sample"]["events"] = [h["type"] for h in history]
     return _finish(base, violations, obs, nflows > 0 and evals > 0 and not unseen, jumpish > 0,
                    {"program": src, "events": history, "facts": g.facts})
@@ -1168,15 +1189,17 @@ def finalize(tier, seed, observed, counts):
     dirs, orphans, cos = shipped_inputs(repo)
     total = len(dirs) + len(orphans)
     loaded = observed.get("shipped_loaded", 0)
+    judged = observed.get("shipped_v2_configs", 0) + observed.get("shipped_v1_configs", 0)
     cov = {
         "shipped_config_dirs": len(dirs),
         "shipped_co_files": len(cos),
         "shipped_co_files_outside_config_dirs": len(orphans),
         "shipped_inputs_loaded": loaded,
+        "shipped_inputs_initialised_and_scanned": judged,
     }
     out = {"coverage": cov}
-    if total and sum(counts.values()) >= total and loaded < 0.85 * total:
-        out["inconclusive"] = "only %d of %d shipped inputs loaded" % (loaded, total)
+    if total and sum(counts.values()) >= total and judged < 0.85 * total:
+        out["inconclusive"] = "only %d of %d shipped inputs were loaded, initialised and scanned" % (judged, total)
     if observed.get("v2_flows_scanned", 0) and not observed.get("contract_evaluations", 0):
         out["inconclusive"] = "monitor-not-reached: the initialize_flow contract was never evaluated"
     return out
